@@ -239,6 +239,10 @@ func encStream(r *vh.Rng, n int, sum *vh.Summary) {
 			o["WriterBufferSize"] = r.PickInt(1, 16, 64)
 		}
 		toIO := r.Bool()
+		if i%3 == 2 {
+			encNilptr(r, sum, format, o, toIO, i)
+			continue
+		}
 		if i%2 == 0 {
 			// the named cases
 			s := randSpecial(r, format)
